@@ -10,8 +10,8 @@ CHECKS = {
         "thorough": {"runs": 400000, "wall_s": 1200, "runs_per_spec": 20, "run_wall_cap": 30, "proto": {"max_types": 7}, "faults": True},
     }],
         "sim": "protosim",
-        "quick": {"runs": 20000, "wall_s": 80, "runs_per_spec": 12, "run_wall_cap": 20, "proto": {}, "faults": True},
-        "thorough": {"runs": 400000, "wall_s": 1500, "runs_per_spec": 20, "run_wall_cap": 30, "proto": {"max_types": 7, "max_states": 4}, "faults": True},
+        "quick": {"runs": 20000, "wall_s": 80, "runs_per_spec": 12, "run_wall_cap": 20, "proto": {}, "faults": True, "probes_not_expected": ["walk_step"]},
+        "thorough": {"runs": 400000, "wall_s": 1500, "runs_per_spec": 20, "run_wall_cap": 30, "proto": {"max_types": 7, "max_states": 4}, "faults": True, "probes_not_expected": ["walk_step"]},
     },
     "C19": {
         "sim": "protosim",
@@ -109,7 +109,7 @@ MANIFEST_TEXT = {
         "technique": "deterministic simulation of protocol mode (virtual clock, scripted faulty peers, seeded fragmentation/delivery schedule) with a per-step invariant against a reference automaton",
     },
     "C20": {
-        "level": "Seeded exploration of protocol interactions under a discrete-event simulator: arrival time, fragmentation, cross-party interleaving and peer misbehaviour (constraint-violating, wrong type, garbage, truncated, silent, stalled, unsolicited) are drawn from one seed; invariants (valid prefix, exactly-once in-order send log, receive conservation and attribution, never accept a bad message, valid remote data is never rejected in fault-free sessions) are checked at every step and at the end of every interaction.",
+        "level": "Seeded exploration of protocol interactions under a discrete-event simulator: arrival time, fragmentation, cross-party interleaving and peer misbehaviour (constraint-violating, wrong type, wrong party, garbage, truncated, silent, stalled, unsolicited), search duration are drawn from one seed; invariants (valid prefix, exactly-once in-order send log, receive conservation and attribution, never accept a bad message, valid remote data is never rejected in fault-free sessions) are checked at every step and at the end of every interaction.",
         "design_ref": "DESIGN.md §6.7",
         "note": _NOTE + " The wire is a reliable ordered stream per sender. Tier A (ProtoSim) reduces listener threads to pre-emption points at the lock-protected buffer accessors; tier B (SockSim, run by the same command) runs the real NetworkParty/UdpTcpProtocolImplementation code and real baton-scheduled threads on fake socket/select/threading modules (one fuzzer + one external party, TCP).",
         "technique": "deterministic simulation with fault injection: discrete-event virtual time, seeded scheduler at buffer-accessor pre-emption points (tier A) and baton-scheduled real threads over fake sockets (tier B), scripted faulty peers, history checks against a reference automaton and the peers' own send logs",
